@@ -53,6 +53,11 @@ def first_diff(a, b):
             return {"index": i, "a": x, "b": y}
     if len(a["result"]) != len(b["result"]):
         return {"len": [len(a["result"]), len(b["result"])]}
+    ca, cb = a.get("collections"), b.get("collections")
+    if ca is not None and cb is not None:
+        diff = sorted(k for k in set(ca) | set(cb) if ca.get(k) != cb.get(k))
+        if diff:
+            return {"collections_that_differ": diff}
     return None
 
 
@@ -128,11 +133,13 @@ def run(ctx, drv):
             for k in ([1, 2] if ctx.quick() else [1, 2, 3, 5]):
                 f = os.path.join(tmp, f"state_{ci}_{k}.bin")
                 js = (k + ci) % 3 == 0           # the human-readable JSON state format as well as the binary one
-                sv = dict(c, mode="save", budgets=[s * k, s * 3], file=f, gauss_pending=(k + ci) % 2 == 0, json=js)
-                rs = dict(c, mode="resume", budgets=[s * k, s * 3], file=f, scramble=7 + k, json=js)
+                # the continuation after the checkpoint is one run call or several (a restored object is used like any other)
+                cont, sa = ([s * 3], {}) if (k + ci) % 4 < 2 else ([s * 2, s], {"save_after": 1})
+                sv = dict(c, mode="save", budgets=[s * k] + cont, file=f, gauss_pending=(k + ci) % 2 == 0, json=js, **sa)
+                rs = dict(c, mode="resume", budgets=[s * k] + cont, file=f, scramble=7 + k, json=js, **sa)
                 # (iii-c) writing a checkpoint is an observation: the run that was checkpointed continues exactly like the same
                 # sequence of run calls without the save_state call in between
-                pl = dict(c, mode="run", budgets=[s * k, s * 3], gauss_pending=(k + ci) % 2 == 0)
+                pl = dict(c, mode="run", budgets=[s * k] + cont, gauss_pending=(k + ci) % 2 == 0, **sa)
                 futs.append(("save-resume", c, k, ex.submit(lambda sv=sv, rs=rs, pl=pl: (sub(sv, 0), sub(rs, 0), sub(pl, 0)))))
             # (iii-b) algorithms whose state contains lazily maintained structures (adaptive grid bounds / densities, which only
             # go stale once the archive has been full for a while): late boundaries as well
